@@ -21,7 +21,7 @@ TIERS = {'quick': (40000, 150), 'thorough': (1500000, 1800)}
 PROBES = ['state_compressed_gt57', 'cookie_b64_gt76', 'token_compressed_gt57',
           'collapse_with_expanded_descendant', 'stale_click', 'dup_request',
           'cookie_loss', 'expand_all', 'collapse_all', 'nonascii_id',
-          'astral_id', 'int_id', 'same_id_in_two_subtrees', 'stale_undefined',
+          'astral_id', 'lone_surrogate_id', 'surrogate_pair_in_id', 'int_id', 'same_id_in_two_subtrees', 'stale_undefined',
           'assume_children_leaf_expanded', 'codec_case', 'depth_ge_4',
           'two_expanded_siblings', 'state_json_gt32k',
           'leaf_without_branches_method', 'foreign_cookie', 'falsy_id']
@@ -54,7 +54,34 @@ ALPH = {
     'latin1': 'abcxyzäöüßéèñÿ© ',
     'bmp': 'ab中文日本ЖфΩאش€ ',
     'astral': 'a\U0001F600\U0001F333\U00010348\U0001D11E ',
+    # lone surrogates: what os.fsdecode makes of a file name that is not
+    # valid UTF-8 (surrogateescape); legal in a str, not encodable as UTF-8
+    # U+E000 stands for the high surrogate U+D800 (real()): a case has to
+    # survive its own JSON replay file, and JSON joins a high and a low
+    # surrogate that follow each other into one character - which is also
+    # known finding F7 of the package's state codec
+    'surrogate': 'ab\udce9\udcff\udc80 ',
+    'surrpair': 'ab\udce9\ue000',
 }
+PAIR = re.compile('[\ud800-\udbff][\udc00-\udfff]')
+
+
+def real(t):
+    """the id a case stands for"""
+    if isinstance(t, str):
+        return t.replace('\ue000', '\ud800')
+    if isinstance(t, list):
+        return [real(x) for x in t]
+    return t
+
+
+def has_pair(t):
+    if isinstance(t, str):
+        return bool(PAIR.search(t))
+    if isinstance(t, list):
+        return any(has_pair(x) for x in t)
+    return False
+
 
 
 class Node:
@@ -122,7 +149,9 @@ def gen_id(r, used, long=False):
             tid = r.randint(0, 3000)
         else:
             al = ALPH[r.choice(['bmp', 'astral'] if long else
-                               ['ascii', 'ascii', 'latin1', 'bmp', 'astral'])]
+                               ['ascii', 'ascii', 'latin1', 'bmp', 'astral']
+                               if how < 0.94 else ['surrogate']
+                               if how < 0.9985 else ['surrpair'])]
             n = 30 if long else r.choice([1, 1, 2, 3, 5, 8, 13, 21, 30])
             tid = ''.join(r.choice(al) for _ in range(n))
         if tid not in used and str(tid) not in map(str, used):
@@ -264,6 +293,7 @@ def gen_case(seed, tier):
 
 def build(tree, cls=Node, bare=(), bare_cls=BareNode):
     idx, tid, kids = tree
+    tid = real(tid)
     if not kids and idx in bare:
         return bare_cls(idx, tid)
     return cls(idx, tid, [build(k, cls, bare, bare_cls) for k in kids])
@@ -381,7 +411,7 @@ def run_case(case):
 
     if case['kind'] == 'codec':
         probe('codec_case')
-        st = case['state']
+        st = real(case['state'])
         try:
             enc = TreeTag.encode_seq(st)
             dec = dec2 = TreeTag.decode_seq(enc)
@@ -407,12 +437,30 @@ def run_case(case):
                  encoded=enc)
         if not SAFE_TOKEN.fullmatch(enc or ''):
             viol('codec', 'codec:alphabet', encoded=enc)
-        return {'violations': violations, 'steps': 1, 'probes': probes,
+        if violations and has_pair(st):
+            probe('surrogate_pair_in_id')
+            violations[0]['key'] = 'codec:surrogate-pair-in-id'
+        return {'violations': violations[:1], 'steps': 1, 'probes': probes,
                 'faults': {}, 'nontrivial': [1] if len(enc) > 76 else [],
                 'digest': hashlib.sha256(enc.encode()).hexdigest()[:12]}
 
     from DocumentTemplate import HTML
     import json
+
+    def tree_ids(t):
+        yield t[1]
+        for k_ in t[2]:
+            yield from tree_ids(k_)
+    pair_case = any(has_pair(real(x)) for x in tree_ids(case['tree']))
+    if pair_case:
+        probe('surrogate_pair_in_id')
+
+    def mark(vs):
+        # known finding F7: an id in which a high surrogate is directly
+        # followed by a low one does not survive the JSON state codec
+        if vs and pair_case:
+            vs[0]['key'] = 'codec:surrogate-pair-in-id'
+        return vs
     other = case['opts'].get('id')
     root = build(case['tree'], NodeOtherId if other else Node,
                  set(case.get('bare', ())),
@@ -431,6 +479,8 @@ def run_case(case):
             probe('falsy_id')
         if isinstance(t, int):
             probe('int_id')
+        elif any(0xd800 <= ord(ch) <= 0xdfff for ch in t):
+            probe('lone_surrogate_id')
         elif any(ord(ch) > 0xffff for ch in t):
             probe('astral_id')
         elif any(ord(ch) > 127 for ch in t):
@@ -562,7 +612,7 @@ def run_case(case):
     # first page load
     cur = request({}, None, 'load', set())
     if cur is None:
-        return result(violations, steps, probes, faults, nontrivial, log)
+        return result(mark(violations), steps, probes, faults, nontrivial, log)
     rows, model_E = cur
     for op in case['history']:
         carried = jar.get('tree-s')
@@ -653,7 +703,7 @@ def run_case(case):
         if got is None:
             break
         rows, model_E = got
-    return result(violations, steps, probes, faults, nontrivial, log)
+    return result(mark(violations), steps, probes, faults, nontrivial, log)
 
 
 def result(violations, steps, probes, faults, nontrivial, log):
